@@ -142,11 +142,26 @@ Theorem C12_suffices_cnv_by_const_apply : forall fam n : Z, is_fam fam -> 0 <= n
 Proof. exact suffices_cnv_by_const_apply. Qed.
 Print Assumptions C12_suffices_cnv_by_const_apply.
 
-Theorem C12_suffices_cnv_pairwise_apply_dft : forall fam n cnv_offset rs a b : Z,
-  is_fam fam -> 0 <= n -> 0 <= rs -> 1 <= a -> 1 <= b ->
+(* cnv_pairwise_apply_dft: FALSE when called as the trait documents it, (cnv_offset, res_size, ..): the delegate reads
+   (res_size, cnv_offset, ..) - which is how the in-tree hal tests call it *)
+Definition C12_suffices_cnv_pairwise_apply_dft_full : Prop := forall fam n cnv_offset rs a b : Z,
+  is_fam fam -> 0 <= rs -> 1 <= a -> 1 <= b ->
   run_takes (t_cnv_pairwise_apply_dft fam rs a b) (0, api_cnv_pairwise_apply_dft_tmp_bytes fam n cnv_offset rs a b) <> None.
-Proof. exact suffices_cnv_pairwise_apply_dft. Qed.
-Print Assumptions C12_suffices_cnv_pairwise_apply_dft.
+Theorem C12_suffices_cnv_pairwise_apply_dft_partial : forall fam n cnv_offset rs a b : Z,
+  is_fam fam -> 0 <= rs -> 1 <= a -> 1 <= b -> Z.min rs (a + b - 1) <= cnv_offset ->
+  run_takes (t_cnv_pairwise_apply_dft fam rs a b) (0, api_cnv_pairwise_apply_dft_tmp_bytes fam n cnv_offset rs a b) <> None.
+Proof. exact suffices_cnv_pairwise_apply_dft_partial. Qed.
+Print Assumptions C12_suffices_cnv_pairwise_apply_dft_partial.
+Theorem C12_suffices_cnv_pairwise_apply_dft_effective : forall fam n cnv_offset rs a b : Z,
+  is_fam fam -> 0 <= rs -> 1 <= a -> 1 <= b ->
+  run_takes (t_cnv_pairwise_apply_dft fam rs a b) (0, api_cnv_pairwise_apply_dft_tmp_bytes fam n rs cnv_offset a b) <> None.
+Proof. exact suffices_cnv_pairwise_apply_dft_effective. Qed.
+Print Assumptions C12_suffices_cnv_pairwise_apply_dft_effective.
+Theorem C12_suffices_cnv_pairwise_apply_dft_refuted :
+  exists fam n cnv_offset rs a b, is_fam fam /\ pow2 n /\ 8 <= n /\ 0 <= rs /\ 1 <= a /\ 1 <= b /\
+  run_takes (t_cnv_pairwise_apply_dft fam rs a b) (0, api_cnv_pairwise_apply_dft_tmp_bytes fam n cnv_offset rs a b) = None.
+Proof. exact suffices_cnv_pairwise_apply_dft_refuted. Qed.
+Print Assumptions C12_suffices_cnv_pairwise_apply_dft_refuted.
 
 (* vmp_apply_dft: two nested takes; n a power of two >= 8 (the FFT64 kernels need n >= 8 anyway) *)
 Theorem C12_suffices_vmp_apply_dft : forall fam n rs a rows ci co size : Z,
@@ -183,7 +198,7 @@ Theorem C12_suffices_ggsw_prepare : forall fam n : Z, is_fam fam -> 0 <= n -> fo
 Proof. exact suffices_ggsw_prepare. Qed.
 Print Assumptions C12_suffices_ggsw_prepare.
 
-(* LWE: every limb count (the formula rounds the plaintext level up to the alignment since d19ca82) *)
+(* LWE: every limb count (the formula rounds the plaintext level up to the alignment since 936bfd3) *)
 Theorem C12_suffices_lwe_encrypt_sk : forall fam n : Z, is_fam fam -> 0 <= n -> forall lwe : infos, 0 <= i_size lwe ->
   run_takes (tree_lwe_encrypt_sk fam n lwe) (0, lwe_encrypt_sk_tmp_bytes fam n lwe) <> None.
 Proof. exact suffices_lwe_encrypt_sk. Qed.
